@@ -29,3 +29,13 @@ def go2coq(c, sub, outname, *args):
     ok = rc == 0 and os.path.exists(outp)
     c.obligation("go2coq:" + sub + ":" + outname, ok, log[-2000:], count=0 if ok else 1)
     return ok
+
+
+def coqchk(c, module):
+    """thorough tier: re-check the compiled closure of the props file with the independent checker coqchk."""
+    rc, out = c.sh(["coqchk", "-silent", "-o", "-Q", os.path.join(c.verif, "coq", "theories"), "RG", "-Q", c.gen, "RGW", module],
+                   timeout=1500, cwd=c.gen)
+    ok = rc == 0 and "* Axioms: <none>" in out
+    c.obligation("coqchk:" + module, ok, out[-1500:])
+    c.checker_cmds.append("coqchk -silent -o -Q coq/theories RG -Q work/%s/gen RGW %s" % (c.pid, module))
+    return ok
